@@ -278,7 +278,7 @@ _ENV = None
 def _env(ctx):
     global _ENV
     if _ENV is None:
-        _ENV = Env(ctx, max(1, min(6, ctx.workers // 2)))
+        _ENV = Env(ctx, max(1, min(4, ctx.workers // 4)))
     return _ENV
 
 
@@ -387,7 +387,7 @@ def states_of(n, run):
 def sample_of(n, run, verdict):
     return {"N": n, "schedule": schedule_text(run), "class": shape_class(run),
             "ids": [f["result"]["session_id"] if f and f["ev"] == "done" else "%s" % (f and f.get("type")) for f in run.final],
-            "rows_after": run.steps[-1].obs if run.steps else run.obs0, "holds": verdict is None}
+            "rows_before": run.obs0, "rows_after_each_step": [s.obs for s in run.steps], "holds": verdict is None}
 
 
 # ---- direct exploration -------------------------------------------------------------------------------
